@@ -1,8 +1,9 @@
 #!/bin/sh
-# Offline setup: nothing to build for engine V (python3 + verus are pre-installed).
+# Offline setup: nothing to build (python3, verus, kani and rustc are pre-installed; both engines read /repo/src as text).
 set -e
 cd "$(dirname "$0")"
 mkdir -p .work .cache evidence
 command -v verus >/dev/null || { echo "verus not on PATH"; exit 1; }
-python3 -c "import sys; sys.path.insert(0,'vx'); import gen, run, report" 
+command -v kani >/dev/null || { echo "kani not on PATH (engine K: units K01-K03 would be undecided)"; exit 1; }
+python3 -c "import sys; sys.path.insert(0,'vx'); import gen, run, report, kani"
 echo setup ok
